@@ -1105,6 +1105,10 @@ def d_replacement(g: G, depth: int, name: Optional[str] = None) -> List[str]:
     k = g.wch([(45, "inline"), (20, "two"), (15, "list"), (10, "code"), (5, "empty"), (5, "blocks")])
     if k == "inline":
         body = [inline(g, 2)]
+        if g.p(0.3):
+            # one paragraph that is NOT all-inline: an inline hyperlink target is a block-level Target node
+            body = [g.words(1, 2) + " _`" + g.words(1, 2) + "` " + g.words(1, 2)]
+            g.tags.add("replacement:inline-target")
     elif k == "two":
         body = [inline(g, 2), "", inline(g, 2)]
     elif k == "list":
@@ -2382,6 +2386,12 @@ def gen_project_case(rng) -> Dict[str, Any]:
     files["source/index.txt"] = page_text("index", True)
     for p in pages:
         files[f"source/{p}.txt"] = page_text(p, False)
+    if len(pages) >= 2 and rng.random() < 0.25:
+        # templated pages: the same text (hence the same undefined target on the same line) on two pages
+        tmpl = files[f"source/{pages[0]}.txt"].rstrip("\n") + "\n\nTemplated :ref:`no-such-label-tmpl` and :method:`db.missingTmpl()`.\n"
+        files[f"source/{pages[0]}.txt"] = tmpl
+        files[f"source/{pages[1]}.txt"] = tmpl
+        tags.add("templated-pages")
     if rng.random() < 0.12:
         for rel in sorted(files):
             if rel.endswith((".txt", ".rst")) and rng.random() < 0.5:
